@@ -22,7 +22,7 @@ from vlib.tasks import basic
 
 STRICT = ["--disallow-any-expr", "--disallow-any-explicit", "--disallow-any-generics", "--disallow-untyped-defs",
           "--disallow-incomplete-defs", "--disallow-any-unimported", "--disallow-any-decorated", "--disallow-subclassing-any",
-          "--warn-return-any", "--no-implicit-reexport", "--strict-equality", "--local-partial-types", "--extra-checks"]
+          "--warn-return-any", "--no-implicit-reexport", "--local-partial-types", "--extra-checks"]
 PROG = "<vp_prog>"
 
 _visited: set[tuple[int, str]] | None = None
@@ -104,18 +104,24 @@ def fragment_reject_reason(src: str, tree: ast.AST) -> str | None:
     for t in tests:
         for op in operands(t):
             subj: list[ast.expr] = []
-            if isinstance(op, ast.Call) and isinstance(op.func, ast.Name) and op.func.id in ("isinstance", "issubclass", "callable", "hasattr", "len"):
+            if isinstance(op, ast.Call) and isinstance(op.func, ast.Name) and op.func.id in ("isinstance", "issubclass", "callable", "hasattr"):
                 subj = op.args[:1]
             elif isinstance(op, ast.Compare):
-                subj = [op.left, *op.comparators]
-                subj = [s for s in subj if not isinstance(s, ast.Constant)]
-                # len(x) == n, type(x) is C
-                subj = [s.args[0] if isinstance(s, ast.Call) and isinstance(s.func, ast.Name) and s.func.id in ("len", "type") and s.args else s for s in subj]
+                narrowing_ops = any(isinstance(o, (ast.Is, ast.IsNot)) for o in op.ops)
+                eq_ops = any(isinstance(o, (ast.Eq, ast.NotEq, ast.In, ast.NotIn)) for o in op.ops)
+                sides = [op.left, *op.comparators]
+                const_like = any(isinstance(x, ast.Constant) or (isinstance(x, ast.Attribute) and isinstance(x.value, ast.Name) and x.value.id[:1].isupper())
+                                 for x in sides)
+                if narrowing_ops or (eq_ops and const_like):
+                    subj = [x for x in sides if not isinstance(x, ast.Constant)
+                            and not (isinstance(x, ast.Attribute) and isinstance(x.value, ast.Name) and x.value.id[:1].isupper())]
+                    # len(x) == n, type(x) is C narrow x
+                    subj = [x.args[0] if isinstance(x, ast.Call) and isinstance(x.func, ast.Name) and x.func.id in ("len", "type") and x.args else x for x in subj]
             elif isinstance(op, (ast.Attribute, ast.Subscript)):
                 subj = [op]
             for s in subj:
                 if isinstance(s, (ast.Attribute, ast.Subscript)):
-                    return "narrowing-on-attribute-or-item"
+                    return "narrowing-on-attribute-or-item:" + ast.unparse(op)[:80]
     return None
 
 
@@ -168,6 +174,9 @@ class _Wrap(ast.NodeTransformer):
     def visit_Call(self, node: ast.Call) -> Any:
         # keep zero-argument super() and the first argument of isinstance() untouched syntactically-sensitive forms
         if isinstance(node.func, ast.Name) and node.func.id == "super":
+            return node
+        if (isinstance(node.func, ast.Name) and node.func.id == "field") or (isinstance(node.func, ast.Attribute) and node.func.attr == "field"):
+            # dataclasses.field() is typed as returning the field's type (a deliberate typeshed fiction)
             return node
         self.generic_visit(node)
         return self._maybe(node)
@@ -644,3 +653,27 @@ def check_and_run(src: str, flags: list[str] | None = None, exec_timeout: float 
         os.chdir(old)
         import shutil
         shutil.rmtree(d, ignore_errors=True)
+
+
+def case(src: str, n_mutants: int, key: list[Any], origin: str = "generated") -> dict[str, Any]:
+    """The program itself and, if it is accepted and runs, n single-edit perturbations of it."""
+    import random
+
+    from vlib import typedgen
+    base = check_and_run(src)
+    out: dict[str, Any] = {"base": base, "mutants": []}
+    if not base.get("accepted"):
+        return out
+    rng = random.Random(common.fingerprint(*key))
+    seen = {src}
+    for _ in range(n_mutants):
+        m = typedgen.perturb(src, rng)
+        if m is None or m[0] in seen:
+            continue
+        seen.add(m[0])
+        r = check_and_run(m[0])
+        r["op"] = m[1]
+        if r.get("accepted") and (r.get("e1") or r.get("e2") or r.get("e3")):
+            r["src"] = m[0]
+        out["mutants"].append(r)
+    return out
